@@ -270,15 +270,30 @@ def check(model: Model, run: Run) -> None:
     run.check(ini == 4096, ext.qualname, 'INITIAL_SIZE = %r' % (ini,), ext.loc(), 'RFC 4271: 4096')
     run.check(big == 65535, ext.qualname, 'EXTENDED_SIZE = %r' % (big,), ext.loc(), 'RFC 8654: 65535')
     table = msg.assigns.get('Length')
+    # the entries are predicates over the length: decided by evaluating them at the boundaries, whichever way they are written
+    # (a lambda, a factory call returning one, a named function)
     want = {1: ('GtE', 29), 2: ('GtE', 23), 3: ('GtE', 21), 4: ('Eq', 19), 5: ('Eq', 23)}
     got: dict = {}
+
+    def classify(v: ast.expr) -> tuple:
+        vals = {}
+        for x in (18, 19, 20, 21, 22, 23, 24, 28, 29, 30, 4096, 65535):
+            vals[x] = _length_pred(model, folder, msg, v, x)
+        if any(r is UNKNOWN for r in vals.values()):
+            return ('?', norm(v))
+        true = [x for x in sorted(vals) if vals[x]]
+        if not true:
+            return ('never', None)
+        if len(true) == 1:
+            return ('Eq', true[0])
+        if true == [x for x in sorted(vals) if x >= true[0]]:
+            return ('GtE', true[0])
+        return ('?', 'true at %s' % true)
+
     if isinstance(table, ast.Dict):
         for k, v in zip(table.keys, table.values):
             kk = folder.fold(k, msg.module, msg)
-            if isinstance(v, ast.Lambda) and isinstance(v.body, ast.Compare) and len(v.body.ops) == 1 and isinstance(v.body.left, ast.Name) and v.body.left.id == v.args.args[0].arg:
-                got[kk] = (type(v.body.ops[0]).__name__, folder.fold(v.body.comparators[0], msg.module, msg))
-            else:
-                got[kk] = ('?', norm(v))
+            got[kk] = classify(v)
     else:
         run.cannot('Message.Length is not a dict literal')
     for k, w in want.items():
@@ -306,6 +321,16 @@ def check(model: Model, run: Run) -> None:
     )
     _r4_exact(model, run, folder)
 
+    # ------------------------------------------------------------------ R8 the header fields
+    run.rule(
+        'C06.R8',
+        'both readers decode the length as the unsigned big-endian number in octets 16-17 of the header and the type as '
+        'octet 18: the defining expressions are evaluated on two headers (length 0x8001 / type 2, length 19 / type 4)',
+        floor=4,
+    )
+    for fi in (ra, rs):
+        _r8_fields(model, run, folder, fi)
+
     # ------------------------------------------------------------------ R5 unknown type / unchanged codes
     run.rule('C06.R5', 'read_message: the reader error is re-raised with its own code/subcode; a type outside the known set raises Notify(1, 3)', floor=1)
     _r5_unknown_type(model, run, folder)
@@ -323,6 +348,92 @@ def check(model: Model, run: Run) -> None:
         floor=1,
     )
     _r7_cancel(model, run, folder)
+
+
+def _length_pred(model: Model, folder: Folder, msg, v: ast.expr, x: int, env: dict | None = None, depth: int = 0):
+    """Value of the length predicate `v` (an entry of Message.Length) for the length x, or UNKNOWN."""
+    from ..evalfn import eval_function
+
+    env = dict(env or {})
+    if depth > 3:
+        return UNKNOWN
+    if isinstance(v, ast.Lambda):
+        if len(v.args.args) != 1:
+            return UNKNOWN
+        env[v.args.args[0].arg] = x
+        r = folder.fold(v.body, msg.module, msg, env)
+        return bool(r) if r is not UNKNOWN else UNKNOWN
+    if isinstance(v, ast.Call) and isinstance(v.func, ast.Name) and v.func.id in msg.module.functions and not v.keywords:
+        # a factory: its parameters are bound to the (constant) arguments, its returned expression is the predicate
+        fac = msg.module.functions[v.func.id]
+        params = [a.arg for a in fac.node.args.args]
+        if len(params) != len(v.args):
+            return UNKNOWN
+        fenv = {}
+        for pn, a in zip(params, v.args):
+            c = folder.fold(a, msg.module, msg, env)
+            if c is UNKNOWN:
+                return UNKNOWN
+            fenv[pn] = c
+        body = [st for st in fac.node.body if not (isinstance(st, ast.Expr) and isinstance(st.value, ast.Constant))]
+        if len(body) == 1 and isinstance(body[0], ast.Return) and body[0].value is not None:
+            return _length_pred(model, folder, msg, body[0].value, x, fenv, depth + 1)
+        return UNKNOWN
+    if isinstance(v, ast.Name) and v.id in msg.module.functions:
+        fi = msg.module.functions[v.id]
+        params = [a.arg for a in fi.node.args.args]
+        if len(params) != 1:
+            return UNKNOWN
+        r = eval_function(folder, fi, {params[0]: x})
+        return bool(r) if r is not UNKNOWN else UNKNOWN
+    return UNKNOWN
+
+
+def _r8_fields(model: Model, run: Run, folder: Folder, fi: FuncInfo) -> None:
+    loc = Loc(model, fi)
+    mod = fi.module
+    reads = sorted((n for n in walk_no_nested(fi.node) if isinstance(n, ast.Call) and model.call_matches(mod, n, 'Connection._reader', 'Connection._reader_async')), key=lambda c: c.lineno)
+    if len(reads) < 2:
+        run.cannot('%s: header and body reads not found' % fi.qualname)
+        return
+    hdr = [nm for nm, ds in loc.defs.items() if any(v is not None and (v is reads[0] or (isinstance(v, ast.Await) and v.value is reads[0])) for v, _, _ in ds)]
+    if len(hdr) != 1:
+        run.cannot('%s: the variable holding the header is not unique: %s' % (fi.qualname, hdr))
+        return
+    # the length: what the body size is computed from;  the type: what selects the per-type length rule
+    size = loc.resolve(reads[1].args[0]) if reads[1].args else None
+    lvar = size.left.id if isinstance(size, ast.BinOp) and isinstance(size.op, ast.Sub) and isinstance(size.left, ast.Name) else None
+    tvar = None
+    for c in walk_no_nested(fi.node):
+        if isinstance(c, ast.Call) and isinstance(c.func, ast.Attribute) and c.func.attr == 'get' and (dotted(c.func.value) or '').endswith('Message.Length') and c.args and isinstance(c.args[0], ast.Name):
+            tvar = c.args[0].id
+    if lvar is None or tvar is None:
+        run.cannot('%s: length / type variables not identified (%s, %s)' % (fi.qualname, lvar, tvar))
+        return
+
+    def value_of(name: str, header: bytes):
+        out = []
+        for v, how, _ in loc.defs.get(name, []):
+            if v is None:
+                out.append(UNKNOWN)
+                continue
+            r = folder.fold(loc.expanded(v, depth=4, keep=hdr), mod, fi.cls, {hdr[0]: header})
+            if how.startswith('assign[') and isinstance(r, tuple):
+                i = int(how[7:-1])
+                r = r[i] if i < len(r) else UNKNOWN
+            elif how != 'assign':
+                r = UNKNOWN if how.startswith('assign[') else r
+            out.append(r)
+        return out
+
+    cases = ((b'\xff' * 16 + b'\x80\x01\x02', 0x8001, 2), (b'\xff' * 16 + b'\x00\x13\x04', 19, 4))
+    for name, idx, what in ((lvar, 1, 'length'), (tvar, 2, 'type')):
+        got = [value_of(name, c[0]) for c in cases]
+        want = [[c[idx]] for c in cases]
+        if any(g is UNKNOWN for gs in got for g in gs) or any(len(gs) != 1 for gs in got):
+            run.cannot('%s: the %s (%s) could not be evaluated from the header: %s' % (fi.qualname, what, name, got))
+            continue
+        run.check(got == want, fi.qualname, '%s decoded from the header: %s for 0x8001/2 and 19/4' % (what, [g[0] for g in got]), fi.loc(loc.defs[name][0][2]), 'RFC 4271 4.1: the length is an unsigned 2-octet field (a signed read turns every extended message of 32768 octets or more into a negative length and the session is torn down with 1/2), the type is the octet after it')
 
 
 def _r4_exact(model: Model, run: Run, folder: Folder) -> None:
